@@ -275,7 +275,8 @@ class SrcFile:
 # expected_tokens() on the token level for the identity check.
 # ----------------------------------------------------------------------------------------------
 
-R1_PAT = [(re.compile(r"\bf64::MIN\b"), "c_f64_min()"), (re.compile(r"\bf64::MAX\b"), "c_f64_max()")]
+R1_PAT = [(re.compile(r"\bf64::MIN\b"), "c_f64_min()"), (re.compile(r"\bf64::MAX\b"), "c_f64_max()"),
+          (re.compile(r"\bf64::NEG_INFINITY\b"), "c_f64_neg_inf()"), (re.compile(r"\bf64::INFINITY\b"), "c_f64_inf()")]
 
 
 def apply_R1(text):
